@@ -146,6 +146,64 @@ def subst_closure(e, caps, args=()):
     return go(e)
 
 
+def subst_params(e, args):
+    """replace ('param', i, fields) by the i-th argument expression (fields re-applied)"""
+    memo = {}
+
+    def go(x):
+        if not isinstance(x, tuple):
+            return x
+        k = id(x)
+        if k in memo:
+            return memo[k]
+        if x and x[0] == "param" and len(x) >= 3 and isinstance(x[1], int) and 1 <= x[1] <= len(args):
+            base = args[x[1] - 1]
+            r = ("field", base, tuple(x[2])) if x[2] else base
+        else:
+            r = tuple(go(y) for y in x)
+        memo[k] = r
+        return r
+
+    return go(e)
+
+
+def inline_calls(prog, e, crate="svgbob", keep=None, depth=4, _stack=()):
+    """rewrite calls of crate-local functions that have a single return expression by that expression with the
+    arguments substituted (helper extraction / delegation are then invisible to a rule).  `keep`: regex of callee
+    names that stay calls (the functions a rule wants to see)."""
+    from .mirlib import Expr
+    memo = {}
+
+    def go(x, d):
+        if not isinstance(x, tuple):
+            return x
+        k = (id(x), d)
+        if k in memo:
+            return memo[k]
+        r = None
+        if x and x[0] == "call" and isinstance(x[1], str) and len(x) >= 3:
+            args = tuple(go(a, d) for a in x[2])
+            name = x[1]
+            b = prog.bodies.get(name)
+            if (d > 0 and b is not None and b.get("crate") == crate and name not in _stack and "{closure" not in name
+                    and not (keep and re.search(keep, name))):
+                try:
+                    rets = Expr(prog, name).returns()
+                except Exception:
+                    rets = []
+                if rets and len(args) == b["argc"]:
+                    body = rets[0] if len(rets) == 1 else ("phi", tuple(rets))
+                    r = go(subst_params(body, args), d - 1)
+            if r is None:
+                r = (x[0], x[1], args) + tuple(x[3:])
+        if r is None:
+            r = tuple(go(y, d) if isinstance(y, tuple) else y for y in x)
+        memo[k] = r
+        return r
+
+    return go(e, depth)
+
+
 def uncast(e):
     e = strip(e)
     while e[0] == "cast":
